@@ -7,7 +7,7 @@ CONSTANTS
   Degs <- DegsQ
   MaxNpts = 4
   Acts = {"CvKnotInsert", "CvDegreeIncrease", "CvClean"}
-  PtKinds = {"gen", "homlin", "bump"}
+  PtKinds = {"gen", "homlin", "bump", "negw"}
   WtKinds = {"none", "gen"}
   ExtraNodes <- Extra0
   NodeSize = 1
